@@ -689,7 +689,7 @@ def gen_clash(rng):
 
 
 def generate(rng, tier):
-    n = 300 if tier == "quick" else 6000
+    n = 300 if tier == "quick" else 2000      # thorough: core.py runs this once per worker process (x14)
     out = []
     for i in range(n):
         r = i % 20
